@@ -83,6 +83,18 @@ def near_boundary(pre, kind):
     return d <= BOUND_REL * max(1, abs(pre))
 
 
+def long_channel(torch, spec):
+    """one channel of spec['n'] float32 weights (seeded), its largest magnitude planted where spec['peak_pos'] says"""
+    g = torch.Generator().manual_seed(spec['seed'])
+    n = spec['n']
+    x = (torch.rand(n, generator=g) * 2 - 1) * 2.0 ** spec['magnitude_exp']
+    pos = {'first': 0, 'middle': n // 2, 'last': n - 1, 'last-100': max(0, n - 100)}.get(spec['peak_pos'])
+    if pos is None:
+        pos = int(torch.randint(0, n, (1,), generator=g))
+    x[pos] = -3.0 * 2.0 ** spec['magnitude_exp'] if spec['seed'] % 2 else 3.0 * 2.0 ** spec['magnitude_exp']
+    return x.view(1, -1)
+
+
 def configure(torch, rng_tag, make, p, deq, all_precs, warm):
     """a quantizer at precision p / mode deq, reached either directly by its constructor or through the public
     `precision` / `dequantize` setters of Quantizer on an object built (and sometimes already used) with other values.
@@ -189,6 +201,24 @@ def run(ctx):
             oracle(all(yi[order[j]] <= yi[order[j + 1]] for j in range(len(order) - 1)), 'wq-not-monotone', info)
             oracle(all(abs(f - v * sc) <= 1e-6 * max(abs(f), 1e-30) for f, v in zip(yf, yi)), 'wq-fq-not-int-times-scale', info)
             oracle(all(abs(xv - f) <= sc / 2 * (1 + 1e-5) + 2.0 ** -20 * abs(xv) for xv, f in zip(c['xs'], yf)), 'wq-error-above-half-step', info)
+    # ---------------- weights: LONG channels (fan-in of real layers: a Linear with 20000 inputs, a 3x5x70x70 convolution), the
+    # largest magnitude at the start / in the middle / in the last elements; regenerated from a compact description
+    for i in range(12 if ctx.quick else 80):
+        spec = {'n': ctx.rng.choice([1000, 4097, 16384, 16385, 20000, 33000, 49152, 70000]), 'seed': ctx.seed * 100 + i, 'bits': ctx.rng.choice([2, 3, 4, 8]),
+                'peak_pos': ctx.rng.choice(['first', 'middle', 'last', 'last-100', 'random']), 'magnitude_exp': ctx.rng.randint(-6, 6)}
+        x = long_channel(torch, spec)
+        qi, qf = MinMaxWeight(spec['bits'], 1, dequantize=False), MinMaxWeight(spec['bits'], 1, dequantize=True)
+        with torch.no_grad():
+            yi, yf = qi(x.clone())[0], qf(x.clone())[0]
+        sc = float(qi.scale.view(-1)[0])
+        pb = spec['bits']
+        lo, hi = float(yi.min()), float(yi.max())
+        info = {'quantizer': 'MinMaxWeight', 'bits': pb, 'long_channel': spec, 'int_out_min_max': [lo, hi], 'scale': sc, 'channel_max_abs': float(x.abs().max())}
+        ctx.case(('w:long', tuple(sorted(spec.items()))), nontrivial=True, kind='w:long-channel:%s' % spec['peak_pos'])
+        ctx.corr += 1
+        oracle(bool(torch.isfinite(yi).all()) and bool((yi == yi.round()).all()) and -2 ** (pb - 1) <= lo and hi <= 2 ** (pb - 1) - 1, 'wq-out-of-signed-range', info)
+        oracle(bool(((yf - yi * sc).abs() <= 1e-6 * yf.abs().clamp(min=1e-30)).all()), 'wq-fq-not-int-times-scale', info)
+        oracle(bool(((x[0] - yf).abs() <= sc / 2 * (1 + 1e-5) + 2.0 ** -20 * x[0].abs()).all()), 'wq-error-above-half-step', info)
     # ---------------- activations
     nA = 300 if ctx.quick else 5000
     for i in range(nA):
@@ -389,6 +419,18 @@ def replay(r):
         q.precision = p
         return q
     routes = c.get('configured', ['fresh', 'fresh'])
+    if 'long_channel' in c:
+        spec = c['long_channel']
+        x = long_channel(torch, spec)
+        pb = spec['bits']
+        qi, qf = MinMaxWeight(pb, 1, dequantize=False), MinMaxWeight(pb, 1, dequantize=True)
+        with torch.no_grad():
+            yi, yf = qi(x.clone())[0], qf(x.clone())[0]
+        sc = float(qi.scale.view(-1)[0])
+        ok = (-2 ** (pb - 1) <= float(yi.min()) and float(yi.max()) <= 2 ** (pb - 1) - 1 and bool(((yf - yi * sc).abs() <= 1e-6 * yf.abs().clamp(min=1e-30)).all())
+              and bool(((x[0] - yf).abs() <= sc / 2 * (1 + 1e-5) + 2.0 ** -20 * x[0].abs()).all()))
+        print('replayed long channel', spec, ': integers in [%g, %g], scale %g, max|w| %g ->' % (float(yi.min()), float(yi.max()), sc, float(x.abs().max())), 'holds' if ok else 'VIOLATED')
+        return 0 if ok else 1
     if c.get('quantizer') == 'PACTAct':
         mk = lambda pp, dq: PACTAct(pp, init_clip_val=c['clip'], dequantize=dq)
         qi = from_route(mk, c['bits'], False, routes[0], torch.ones(4))
